@@ -353,6 +353,9 @@ def gen_sampler_case(rng, kind, preset=None):
     c["residual"] = gen_residual(rng, at, ncomp, must, deriv if rng.random() < 0.7 else [], integral)
     extras = one_per_object(at["coord"]) + one_per_object(at["out"])
     c["sigargs"], c["sig"] = make_sig(rng, c["residual"], [(e[0], e[1], e[3]) for e in extras])
+    if kind in ("pinn", "mean", "single") and group and not any(f[0] in ("d1", "d2", "dint") for comp in c["residual"] for term in comp
+                                                                  for f in term["f"]) and rng.random() < 0.6:
+        c["track_gradients"] = False          # C14: a derivative-free condition evaluated without a graph
     if kind == "single" or (kind in ("periodic", "integro") and rng.random() < 0.4):
         c["error"] = str(rng.choice(D.ERRORS))
         c["reduce"] = str(rng.choice(D.REDUCES))
